@@ -52,6 +52,11 @@ CATALOGUE = [
     dict(modules=[dict(interval=16, slow=40, dopoll=[(1, 'ok')], reads={'a': [(1, 'ok')]}),
                   dict(interval=8, slow=24, dopoll=[(1, 'ok')], reads={'a': [(1, 'ok')]}, readable=True)],
          env=[(20, 'interval', 0, 2), (60, 'interval', 0, 32), (100, 'interval', 1, 1)], horizon=260),
+    # the pollinterval parameter itself goes into an error state (its value is kept in the hardware and the read failed):
+    # the interval in use stays, every module of the thread goes on being polled
+    dict(modules=[dict(interval=4, slow=8, dopoll=[(1, 'ok')], reads={'a': [(0, 'ok')]}, readable=True),
+                  dict(interval=8, slow=16, dopoll=[(0, 'ok')], reads={'b': [(1, 'ok')]}, readable=True)],
+         env=[(30, 'pierr', 0, True), (60, 'pierr', 1, False), (90, 'pierr', 0, False)], horizon=160),
     # constants with read functions are never polled, whatever their value and wherever they are declared
     dict(modules=[dict(interval=4, slow=8, dopoll=[(1, 'ok')], reads={'a': [(0, 'ok')]},
                        consts={'k0': (0.0, 'class'), 'k5': (5.0, 'class'), 'c0': (0.0, 'cfg'), 'c3': (3.0, 'cfg')}),
@@ -123,6 +128,9 @@ def alpha(sc, r):
         polled = ['read_' + p for p in m.get('reads', {})]
         nopoll = ['read_' + p for p in m.get('nopoll', [])] + ['read_' + p for p in m.get('consts', {})]
         durs = [d for sc_ in m.get('reads', {}).values() for d, _ in sc_]
+        if m.get('pi_read'):
+            polled.append('read_pollinterval')
+            durs += [d for d, _ in m['pi_read']]
         if m.get('rh'):
             polled += ['read_' + p for p in m['rh']['keys']]
             durs += [d for d, _ in m['rh'].get('script') or [(0, 'ok')]]
@@ -151,6 +159,8 @@ def alpha(sc, r):
             elif e['action'] == 'interval':
                 base[mi] = e['arg']
                 tr.append({'ev': 'change', 't': e['t'], 'm': mi + 1, 'interval': e['arg'], 'flag': False, 'isfast': False})
+            elif e['action'] == 'pierr':
+                pass        # an error state of the pollinterval parameter changes nothing for the poller
             else:
                 tr.append({'ev': 'trigger', 't': e['t'], 'm': mi + 1})
         elif e['ev'] == 'end':
